@@ -661,6 +661,36 @@ pub fn execute(sc: &ProbeScenario, sh: &Shared) -> Value {
                     }
                 }
             }
+            // a child forked while the fake is installed inherits the patched code and everything it
+            // leads to: the same probe call gives the same result there
+            if r_ok && sc.index % 2 == 0 {
+                let regs = sc.regs[0].clone();
+                let rets = sc.rets[0].clone();
+                let value = sc.value;
+                let r = in_fork(move || {
+                    let mut out = [0u64; 20];
+                    unsafe {
+                        VN_FAKE_SEEN = [0; 32];
+                        VN_FAKE_RET = [rets[0], rets[1], rets[2], rets[3]];
+                        vn_probe_call(target as *const (), regs.as_ptr(), out.as_mut_ptr());
+                    }
+                    if is_bool {
+                        ((out[0] & 0xFF) == value as u64) as u64
+                    } else {
+                        let seen = unsafe { VN_FAKE_SEEN };
+                        let args_ok = (0..6).all(|k| seen[k] == regs[k]) && (0..8).all(|k| seen[13 + k] == regs[12 + k] && seen[21 + k] == regs[20 + k]);
+                        let rets_ok = (0..4).all(|k| out[k] == rets[k]);
+                        (args_ok && rets_ok) as u64
+                    }
+                });
+                *probes.entry("probe_call_in_a_forked_child".into()).or_insert(0) += 1;
+                let prop: &[&str] = if is_bool { &["C10"] } else { &["C13"] };
+                match r {
+                    Ok(1) => {}
+                    Ok(_) => v("probe-call-in-forked-child-differs", prop, format!("a child forked while the synthetic target at {target:#x} was faked did not get {} from the same call", if is_bool { "the forced value" } else { "its arguments to the fake and the fake's results back" })),
+                    Err(e) => v("probe-call-in-forked-child-died", prop, format!("a child forked while the synthetic target at {target:#x} was faked died calling it ({})", if e > 0 { format!("signal {e}") } else { format!("status {}", -e) })),
+                }
+            }
             // the function behind a thunk was never named: it keeps its own behaviour while the
             // thunk is faked ("no other observable effect")
             if r_ok {
@@ -674,6 +704,34 @@ pub fn execute(sc: &ProbeScenario, sh: &Shared) -> Value {
             sh.note(PH_CALL_AFTER, 0, 0, 0);
             if arena::call_u32(target) != target_orig {
                 v("call-after-scope-exit-not-original", &["C02"], format!("synthetic target at {target:#x} does not return its constant after drop"));
+            }
+            // after this process has had a lifetime of its own, a forked child has one: what it
+            // forces is forced in the child, and nothing of it shows here
+            if is_bool && r_ok && sc.index % 3 == 1 {
+                let value = sc.value;
+                let before: Vec<u8> = unsafe { std::slice::from_raw_parts(target as *const u8, 16).to_vec() };
+                let r = in_fork(move || unsafe {
+                    let mut inj = InjectorPP::new();
+                    inj.when_called(FuncPtr::new(target as *const (), "fn() -> bool")).will_return_boolean(value);
+                    let v1 = arena::call_u32(target) & 0xFF;
+                    drop(inj);
+                    let v2 = arena::call_u32(target);
+                    ((v1 as u64) << 32) | v2 as u64
+                });
+                *probes.entry("forced_boolean_in_a_forked_child".into()).or_insert(0) += 1;
+                match r {
+                    Ok(x) => {
+                        let (v1, v2) = ((x >> 32) as u32, x as u32);
+                        if v1 != value as u32 || v2 != target_orig {
+                            v("forced-boolean-not-returned", &["C10"], format!("in a forked child the synthetic target at {target:#x} returned {v1:#x} while forced to {value} and {v2:#x} after its injector went (original {target_orig:#x})"));
+                        }
+                    }
+                    Err(e) => v("probe-call-in-forked-child-died", &["C10"], format!("a forked child died during its own forced-boolean lifetime ({})", if e > 0 { format!("signal {e}") } else { format!("status {}", -e) })),
+                }
+                let after: Vec<u8> = unsafe { std::slice::from_raw_parts(target as *const u8, 16).to_vec() };
+                if after != before || arena::call_u32(target) != target_orig {
+                    v("forced-boolean-in-child-changed-this-process", &["C10", "C03"], format!("after a forked child's own lifetime the synthetic target at {target:#x} in THIS process has entry bytes {:02x?} (before {:02x?})", after, before));
+                }
             }
         }
         _ => {
